@@ -23,7 +23,8 @@ REGISTRY = {
             'The model is tied to /repo by differential correspondence (modified proteins of length 1..40 x every '
             'protease x missed cleavages 0..3 x semi x min/max length; semi-/non-enzymatic generators) and every clause (five return '
             'types, re-parse, found again at offset s, mass sum) is evaluated on the implementation',
-    'note': 'trusted: Lean kernel, axioms propext/Classical.choice/Quot.sound, the correspondence harness and wire codec, regex -> '
+    'note': 'trusted: Lean kernel, axioms propext/Classical.choice/Quot.sound, the subset reader harness/translate_reorder.py (slice fragments '
+            'read mechanically from the current source, Props/C11Gen.lean), the correspondence harness and wire codec, regex -> '
             'cleavage sites (computed by the implementation, fed to the model; verified separately in C06), parse/serialize, '
             'find_subsequence_indices and mass() are black boxes of the oracle. Known findings: pieces inherit labile mods and '
             'terminal static rules, so zero-missed-cleavage masses over-count them (KF-C07-labile-inherited, '
@@ -358,7 +359,9 @@ def run(chk):
     from peptacular.constants import PROTEASES
     tier = chk.tier
     rng = chk.rng
-    chk.lean_build(['PeptVerif.Props.C07', 'PeptVerif.Props.C07Canon'], DRV)
+    from .. import translate_reorder
+    gen_done, gen_unt = translate_reorder.translate(chk)
+    chk.lean_build(['PeptVerif.Props.C07', 'PeptVerif.Props.C07Canon', 'PeptVerif.Props.C11Gen'], DRV)
     chk.trusted += [
         'modelled (Model/Reorder.lean, Model/Spans.lean): ProFormaAnnotation.slice, has_mods, _return_digested_sequences (annotation '
         'branch, fast and general path), digest from cleavage sites to pieces; not modelled: regex -> cleavage sites (computed by the '
@@ -375,7 +378,7 @@ def run(chk):
         chk.oracle('corpus:' + name, [case], ORACLES[name])
 
     rules_all = list(PROTEASES.keys()) + EXTRA_RULES
-    N = 330 if tier == 'quick' else 1400
+    N = 260 if tier == 'quick' else 1100
     dig, gens, pcs = [], [], []
     for idx in range(N):
         a, pat = gen_protein(rng, 40 if idx % 4 else 12, full_pool=(idx % 5 == 0))
@@ -567,10 +570,10 @@ def run(chk):
     cc.ranked_oracle(chk, 'lineage', lin, o_lineage, classify, key_fn=repr, nontrivial_fn=lambda c: True)
 
     share = []
-    for idx, c in enumerate(dig if wide else dig[::2]):
+    for idx, c in enumerate(dig if wide else dig[::4]):
         rt = ('annotation', 'annotation-span')[idx % 2]
         share.append(('sharing', c[1], ['digest', list(c[2]), c[3], c[4], rt]))
-    for idx, c in enumerate(gens if wide else gens[::2]):
+    for idx, c in enumerate(gens if wide else gens[::4]):
         rt = ('annotation-span', 'annotation')[idx % 2]
         share.append(('sharing', c[1], ['gen', c[2], c[3], c[4], rt]))
     for idx, c in enumerate(pcs[::3]):
@@ -594,7 +597,7 @@ def run(chk):
 
     if tier == 'thorough':
         chk.leanchecker(['PeptVerif.Model.Reorder', 'PeptVerif.Model.C07Strings', 'PeptVerif.Lemmas.Reorder', 'PeptVerif.Lemmas.ReorderCanon',
-                         'PeptVerif.Props.C07', 'PeptVerif.Props.C07Canon'])
+                         'PeptVerif.Props.C07', 'PeptVerif.Props.C07Canon', 'PeptVerif.Generated.ReorderPy', 'PeptVerif.Props.C11Gen'])
     return chk.finish(classify)
 
 
